@@ -27,13 +27,14 @@ Fields == { "variables",            \* every collection of TransactionVariables 
             "RequestBodyAccess", "RequestBodyLimit", "ResponseBodyAccess", "ResponseBodyLimit",
             "ForceRequestBodyVariable", "ForceResponseBodyVariable",
             "lastPhase", "Capture", "stopWatches",
+            "debugLogger",                                                     \* ctl:debugLogLevel replaces the transaction's logger
             "requestBodyBuffer", "responseBodyBuffer",                         \* length, spill file, readers
             "transformationCache" }
 
 \* what a predecessor can do (one token = one trigger header value / driver behaviour)
 Tokens == { "match", "setvar", "capture", "deny1", "deny2", "deny3", "deny4",
             "ctlEngine", "ctlReqAccess", "ctlReqLimit", "ctlAuditEngine", "ctlAuditParts",
-            "ctlForceReqBody", "ctlRespAccess", "ctlRmId", "ctlRmRange", "ctlRmTarget",
+            "ctlForceReqBody", "ctlRespAccess", "ctlRmId", "ctlRmRange", "ctlRmTarget", "ctlDebugLevel",
             "allow", "allowRequest", "skip", "skipAfter",
             "spill", "respBody", "noLogging", "closeTwice", "keepReader", "tfCache", "otherArgs" }
 
@@ -50,6 +51,7 @@ Dirties(tok) ==
     [] tok = "ctlAuditParts"  -> {"AuditLogParts", "matchedRules", "audit"}
     [] tok = "ctlForceReqBody" -> {"ForceRequestBodyVariable", "matchedRules", "audit"}
     [] tok = "ctlRespAccess"  -> {"ResponseBodyAccess", "matchedRules", "audit"}
+    [] tok = "ctlDebugLevel"  -> {"debugLogger", "matchedRules", "audit"}
     [] tok = "ctlRmId"        -> {"ruleRemoveByID", "matchedRules", "audit"}
     [] tok = "ctlRmRange"     -> {"ruleRemoveByIDRanges", "matchedRules", "audit"}
     [] tok = "ctlRmTarget"    -> {"ruleRemoveTargetByID", "matchedRules", "audit"}
